@@ -52,7 +52,11 @@ VARIANTS = ['valid', 'wrong_dtype', 'wrong_shape', 'wrong_shape_t', 'strided', '
             # zero-stride (broadcast) view
             'alias_in0', 'alias_in1', 'alias_in2', 'alias_view0', 'alias_view1', 'alias_view2',
             'alias_shift0', 'alias_shift1', 'alias_shift2',
-            'byteswapped', 'zerosize', 'zerosize_out', 'zerod', 'broadcast']
+            'byteswapped', 'zerosize', 'zerosize_out', 'zerod', 'broadcast',
+            # a 64-bit integer image and an out of the EQUAL dtype with the other C type number ('l' vs 'q', 'L' vs 'Q':
+            # `np.dtype('l') == np.dtype('q')`, so `_get_output` accepts it; the native re-check must use an equivalence test)
+            'equivtype']
+EQUIV = {'l': 'q', 'q': 'l', 'L': 'Q', 'Q': 'L'}
 
 
 def _alias_form(variant):
@@ -81,7 +85,7 @@ def _registry():
         return REG
     M, C, L, I = 'mahotas.morph.', 'mahotas.convolve.', 'mahotas.labeled.', 'mahotas.interpolate.'
 
-    def img(g, nd, dts=(bool, np.uint8, np.int16, np.int32)):
+    def img(g, nd, dts=(bool, np.uint8, np.int16, np.int32, np.int64, np.uint64)):
         dt = g.r.choice(dts)
         shp = g.shape(nd, 2)
         return g.b(shp) if dt is bool else g.img(shp, dt)
@@ -97,7 +101,7 @@ def _registry():
     reg(M + 'tophat_close', morph, flow='tophat_close')
 
     def cer(g, nd):
-        A = img(g, nd, (np.uint8, np.int16, np.int32))
+        A = img(g, nd, (np.uint8, np.int16, np.int32, np.int64, np.uint64))
         return [A, g.img(A.shape, A.dtype), g.bc(nd).astype(A.dtype)], {}
     reg(M + 'cerode', cer, flow='cerode')
 
@@ -144,7 +148,7 @@ def _registry():
 
     def filt(g, nd):
         bc = offbc(g, nd) if g.r.random() < 0.35 else g.bc(nd)
-        return [g.img(g.shape(nd, 2), g.r.choice([np.uint8, np.int32, np.float64])), bc], mode(g)
+        return [g.img(g.shape(nd, 2), g.r.choice([np.uint8, np.int32, np.float64, np.int64, np.uint64])), bc], mode(g)
     reg(C + 'median_filter', filt)
     reg(C + 'mean_filter', filt, res='float64')
     reg(C + 'rank_filter', lambda g, nd: (lambda a, kw: (a + [0], kw))(*filt(g, nd)))
@@ -310,6 +314,12 @@ def _mk_out(variant, shape, dtype, g, args, e):
         img[...] = a
         args[k] = img
         return root[lo_o:lo_o + n0].reshape(shape), True
+    if variant == 'equivtype':
+        ch = args[e['inp']].dtype.char if isinstance(args[e['inp']], np.ndarray) else ''
+        if ch not in EQUIV or dtype.char not in EQUIV or 'dtype' not in e['req'] and not e['path'].endswith('remove_bordering'):
+            return None
+        o = _carve(shape, np.dtype(EQUIV[dtype.char]))
+        return (o, True) if o.dtype.char == EQUIV[dtype.char] else None
     if variant == 'byteswapped':
         if dtype.itemsize == 1 or 'dtype' not in e['req'] and not e['path'].endswith('.zoom'):
             return None
@@ -367,6 +377,18 @@ def _pre(case, e, g, args):
             # give the argument the documented result dtype where that is a fixed one, so that it CAN serve as the out
             args[j] = (args[j] != 0) if want == np.bool_ else args[j].astype(want)
         args[j] = np.ascontiguousarray(args[j])
+    elif v == 'equivtype':
+        # the image (and every array operand of its dtype) becomes a 64-bit integer array created with one of the four type
+        # characters; `_mk_out` then builds the out with the twin character
+        a = args[k]
+        if not isinstance(a, np.ndarray) or e['res'] != 'same' and e['res'] is not None or a.dtype.kind == 'f' and e['path'].split('.')[-1] in (
+                'gaussian_filter', 'gaussian_filter1d', 'spline_filter', 'spline_filter1d', 'shift', 'zoom'):
+            return
+        ch = g.r.choice('lqLQ')
+        dt0 = a.dtype
+        for i, x in enumerate(args):
+            if isinstance(x, np.ndarray) and (x.dtype == dt0 or i == k):
+                args[i] = np.abs(x).astype(np.dtype(ch)) if x.dtype.kind in 'iuf' else x.astype(np.dtype(ch))
     elif v == 'zerosize':
         a = args[k]
         if not isinstance(a, np.ndarray) or a.ndim == 0:
@@ -392,7 +414,7 @@ def _key(e, param, variant, what):
         return 'gaussian_filter1d:out-ignored'
     if name == 'zoom' and what.startswith('wrong-exception'):
         return 'zoom:out-noncontiguous-RuntimeError'
-    if name == 'convolve1d' and what == 'valid-rejected':
+    if name == 'convolve1d' and what == 'valid-rejected' and variant == 'valid':
         return 'convolve1d:axis0-valid-out-rejected'
     if name == 'convolve1d' and variant == 'wrong_shape_t' and what == 'invalid-accepted':
         return 'convolve1d:axis0-transposed-shape-out-accepted'
